@@ -8,6 +8,7 @@ package main
 
 import (
 	"bytes"
+	"compress/gzip"
 	"context"
 	"crypto"
 	"crypto/ecdsa"
@@ -19,11 +20,13 @@ import (
 	"encoding/pem"
 	"errors"
 	"fmt"
+	"io"
 	"mime"
 	"os"
 	"path/filepath"
 	"sort"
 	"strings"
+	"testing/iotest"
 	"time"
 	. "vh/kit"
 
@@ -302,6 +305,11 @@ type c07Blob struct {
 	MT    string `json:"media_type"`
 	Flip  bool   `json:"one_byte_changed,omitempty"`
 	Extra int    `json:"bytes_appended,omitempty"`
+	// shape of the io.Reader handed to the API: "" = bytes.Reader (has WriteTo), plain (no WriteTo),
+	// dataerr (last bytes together with io.EOF), gzip, onebyte, half, zeronil ((0, nil) now and then),
+	// fail / fail-data (a non-EOF error after FailAt bytes, without / together with data)
+	Reader string `json:"reader,omitempty"`
+	FailAt int    `json:"fail_after_bytes,omitempty"`
 }
 
 type c07Case struct {
@@ -380,9 +388,96 @@ func blobBytes(b *c07Blob) []byte {
 	return out
 }
 
-func blobTerm(content []byte) string {
+// blobTerm: the truth about the blob is computed here over the complete content,
+// whatever the shape of the reader the API gets.
+func blobTerm(content []byte, readErr bool) string {
 	return CApp("mk_blob", CZ(int64(len(content))), CStr(string(digest.SHA256.FromBytes(content))),
-		CStr(string(digest.SHA384.FromBytes(content))), CStr(string(digest.SHA512.FromBytes(content))))
+		CStr(string(digest.SHA384.FromBytes(content))), CStr(string(digest.SHA512.FromBytes(content))), CBool(readErr))
+}
+
+var errInjected = errors.New("c07: injected read failure")
+
+type zeroNilReader struct {
+	b []byte
+	n int
+}
+
+func (r *zeroNilReader) Read(p []byte) (int, error) {
+	r.n++
+	if r.n%3 == 1 {
+		return 0, nil
+	}
+	if len(r.b) == 0 {
+		return 0, io.EOF
+	}
+	k := 1000 + 37*r.n
+	if k > len(p) {
+		k = len(p)
+	}
+	if k > len(r.b) {
+		k = len(r.b)
+	}
+	copy(p, r.b[:k])
+	r.b = r.b[k:]
+	return k, nil
+}
+
+type failReader struct {
+	b        []byte
+	at       int
+	withData bool
+	pos      int
+}
+
+func (r *failReader) Read(p []byte) (int, error) {
+	left := r.at - r.pos
+	if left <= 0 {
+		return 0, errInjected
+	}
+	k := len(p)
+	if k > left {
+		k = left
+	}
+	copy(p, r.b[r.pos:r.pos+k])
+	r.pos += k
+	if r.withData && r.pos >= r.at {
+		return k, errInjected
+	}
+	return k, nil
+}
+
+func readErr(b *c07Blob) bool { return b.Reader == "fail" || b.Reader == "fail-data" }
+
+func mkReader(b *c07Blob, content []byte) io.Reader {
+	switch b.Reader {
+	case "plain":
+		return struct{ io.Reader }{bytes.NewReader(content)}
+	case "dataerr":
+		return iotest.DataErrReader(bytes.NewReader(content))
+	case "gzip":
+		var buf bytes.Buffer
+		zw := gzip.NewWriter(&buf)
+		zw.Write(content)
+		zw.Close()
+		zr, err := gzip.NewReader(&buf)
+		if err != nil {
+			panic(err)
+		}
+		return zr
+	case "onebyte":
+		return iotest.OneByteReader(bytes.NewReader(content))
+	case "half":
+		return iotest.HalfReader(bytes.NewReader(content))
+	case "zeronil":
+		return &zeroNilReader{b: content}
+	case "fail", "fail-data":
+		at := b.FailAt
+		if at > len(content) {
+			at = len(content)
+		}
+		return &failReader{b: content, at: at, withData: b.Reader == "fail-data"}
+	}
+	return bytes.NewReader(content)
 }
 
 func mtOK(mt string) bool {
@@ -549,7 +644,7 @@ func runC07(a *Args) error {
 	prelude := "From NV Require Import Base C07_Model.\nOpen Scope string_scope.\n"
 	w := NewCaseWriter(a, "C07", prelude, "case", "run")
 	w.ShardSize = 600
-	w.Rule = "sign->verify pairs on the real API: {RSA-2048/3072/4096, EC-256/384/521} x {JWS, COSE} x {OCI descriptor, blob} x {local signer, plugin signature generator, plugin envelope generator} as a full grid with generated descriptors (urls, data, platform, artifactType, annotations), blob contents of sizes 0..1 MiB (thorough: 4 MiB), media types, user-metadata maps (quotes, HTML characters, non-ASCII, U+2028, empty values), expiry durations (0, seconds .. 100 years), signing agents; plus streams that violate one rule each: illegal arguments (negative / sub-second duration, bad envelope or content media type), reserved or clashing metadata keys, untrusted signer, changed blob / descriptor / media type at verification, metadata demanded at verification (subset, wrong value, missing, reserved), plugins that describe an unknown or a wrong key spec or have no / both capabilities, strings that are not valid UTF-8, descriptor sizes around 2^53 (JWS float64 finding); systematic families: verification LESS specific than signing (no content media type, nil / empty / one / all metadata), nil vs empty maps and empty keys / values, history (ONE signer instance signs 4 things in sequence with an illegal request in the middle, each step its own case), other signatures (other artifact / untrusted signer) listed before / after / around the genuine one in the repository. non-trivial = signing succeeded and verification was attempted; distinct = distinct input tuples"
+	w.Rule = "sign->verify pairs on the real API: {RSA-2048/3072/4096, EC-256/384/521} x {JWS, COSE} x {OCI descriptor, blob} x {local signer, plugin signature generator, plugin envelope generator} as a full grid with generated descriptors (urls, data, platform, artifactType, annotations), blob contents of sizes 0..1 MiB (thorough: 4 MiB) handed over as io.Readers of 7 shapes for signing x 7 for verifying (bytes.Reader, no-WriteTo, data together with io.EOF, gzip, one byte at a time, half reads, (0,nil) reads; sizes 0, 1, 32 KiB and 64 KiB -1/0/+1) plus readers failing with a non-EOF error at the start / middle / last byte with and without data, media types, user-metadata maps (quotes, HTML characters, non-ASCII, U+2028, empty values), expiry durations (0, seconds .. 100 years), signing agents; plus streams that violate one rule each: illegal arguments (negative / sub-second duration, bad envelope or content media type), reserved or clashing metadata keys, untrusted signer, changed blob / descriptor / media type at verification, metadata demanded at verification (subset, wrong value, missing, reserved), plugins that describe an unknown or a wrong key spec or have no / both capabilities, strings that are not valid UTF-8, descriptor sizes around 2^53 (JWS float64 finding); systematic families: verification LESS specific than signing (no content media type, nil / empty / one / all metadata), nil vs empty maps and empty keys / values, history (ONE signer instance signs 4 things in sequence with an illegal request in the middle, each step its own case), other signatures (other artifact / untrusted signer) listed before / after / around the genuine one in the repository. non-trivial = signing succeeded and verification was attempted; distinct = distinct input tuples"
 	w.Assumptions = []string{
 		"the clock value read inside Sign is taken from the signing time found in the envelope (its sub-second part from a clock reading just before the call)",
 		"signatures verify well before their expiry (generated durations are 0 or >= 1 hour)",
@@ -637,16 +732,16 @@ func runC07(a *Args) error {
 		} else {
 			content = blobBytes(c.Blob)
 			vcontent = blobBytes(c.VBlob)
-			targetTerm = CApp("TBlob", blobTerm(content), CStr(c.Blob.MT), CBool(mtOK(c.Blob.MT)))
-			if bytes.Equal(content, vcontent) {
+			targetTerm = CApp("TBlob", blobTerm(content, readErr(c.Blob)), CStr(c.Blob.MT), CBool(mtOK(c.Blob.MT)))
+			if bytes.Equal(content, vcontent) && !readErr(c.Blob) && !readErr(c.VBlob) {
 				// the same blob at verification: share the term (string literals dominate Coq time)
-				letBlob = blobTerm(content)
+				letBlob = blobTerm(content, false)
 				targetTerm = CApp("TBlob", "b_", CStr(c.Blob.MT), CBool(mtOK(c.Blob.MT)))
 				vtargetTerm = CApp("TBlob", "b_", CStr(c.VBlob.MT), CBool(mtOK(c.VBlob.MT)))
 			} else {
-				vtargetTerm = CApp("TBlob", blobTerm(vcontent), CStr(c.VBlob.MT), CBool(mtOK(c.VBlob.MT)))
+				vtargetTerm = CApp("TBlob", blobTerm(vcontent, readErr(c.VBlob)), CStr(c.VBlob.MT), CBool(mtOK(c.VBlob.MT)))
 			}
-			sig, _, serr = notation.SignBlob(ctx, blobSignerShim{sg, &shash}, bytes.NewReader(content),
+			sig, _, serr = notation.SignBlob(ctx, blobSignerShim{sg, &shash}, mkReader(c.Blob, content),
 				notation.SignBlobOptions{SignerSignOptions: sopts, ContentMediaType: c.Blob.MT, UserMetadata: cpMeta(c.Meta, c.MetaEmpty)})
 			if serr != nil {
 				sig = nil
@@ -752,7 +847,7 @@ func runC07(a *Args) error {
 				if !c.Trusted {
 					bv = e.bvUntrust
 				}
-				ret, out, err := notation.VerifyBlob(ctx, blobVerifierShim{bv, &vhash}, bytes.NewReader(vcontent), sig, notation.VerifyBlobOptions{
+				ret, out, err := notation.VerifyBlob(ctx, blobVerifierShim{bv, &vhash}, mkReader(c.VBlob, vcontent), sig, notation.VerifyBlobOptions{
 					BlobVerifierVerifyOptions: notation.BlobVerifierVerifyOptions{SignatureMediaType: c.Format, UserMetadata: cpMeta(c.VMeta, c.VMetaEmpty)},
 					ContentMediaType:          c.VBlob.MT})
 				vcode = verifyClass(err)
@@ -814,6 +909,7 @@ func runC07(a *Args) error {
 		w.Count("sign_class", fmt.Sprint(sc))
 		w.Count("verify_class", fmt.Sprint(vcode))
 		if c.Blob != nil {
+			w.Count("reader_sign/verify", "sign="+shapeName(c.Blob.Reader)+" verify="+shapeName(c.VBlob.Reader))
 			w.Count("blob_size", sizeBucket(c.Blob.Size))
 		}
 	}
@@ -838,6 +934,13 @@ func runC07(a *Args) error {
 		}
 	}
 	return w.Close()
+}
+
+func shapeName(s string) string {
+	if s == "" {
+		return "bytes"
+	}
+	return s
 }
 
 func sizeBucket(n int) string {
